@@ -488,6 +488,16 @@ fn sweep(maxn: u64, lite: bool) -> Vec<Value> {
                                          json!({"op": "assoc", "i": sizes.len() - 1, "t": "A"}), build_op(&[])]));
         }
     }
+    // (f) a tag name added twice (outside the documented precondition of add_tag; see finding F19c)
+    for k in kinds().into_iter().enumerate().filter(|(i, _)| [0, 1, 3, 5].contains(i)).map(|(_, k)| k) {
+        let qa = vec![vec!["A".to_string()], vec!["B".to_string()]];
+        let f = json!({"op": "add_file", "sz": [0, 9], "pr": 1});
+        progs.push(with_ops(&k, vec![json!({"op": "add_tag", "t": "A", "ty": 1}), json!({"op": "add_tag", "t": "A", "ty": 1}), f.clone(),
+                                     json!({"op": "assoc", "i": 0, "t": "A"}), build_op(&qa)]));
+        progs.push(with_ops(&k, vec![json!({"op": "add_tag", "t": "A", "ty": 1}), json!({"op": "add_tag", "t": "B", "ty": 2}), f.clone(),
+                                     json!({"op": "assoc", "i": 0, "t": "A"}), json!({"op": "add_tag", "t": "A", "ty": 4}), f.clone(),
+                                     json!({"op": "assoc", "i": 1, "t": "A"}), build_op(&qa), json!({"op": "assoc", "i": 1, "t": "B"}), build_op(&qa)]));
+    }
     // (e) version 2 size manifest whose total needs more than 40 bits although every entry fits 32
     let k = json!({"kind": "size", "ver": 2, "eks": 2});
     for cnt in [256u64, 257, 300] {
